@@ -430,7 +430,26 @@ class MathShimF64(symx.MathShim):
     @staticmethod
     def isinf(x):
         if isinstance(x, SymF64):
-            return bool(SymBool(z3.fpIsInf(x.t)))
+            ex = cur()
+            cond = z3.fpIsInf(x.t)
+            if z3.is_const(x.t) or not isinstance(ex, F64Explorer):
+                return ex.decide(cond)
+            # compound term: a quick feasibility probe; if the solver cannot decide quickly whether the value can be
+            # infinite, the finite branch is taken and "the value is finite" becomes an obligation of its own
+            # (deferred cut, discharged with the other obligations)
+            saved = ex.feas_timeout_ms
+            ex._solver.set("timeout", 1500)
+            try:
+                r = ex._solver.check(cond)
+            finally:
+                ex._solver.set("timeout", saved)
+            if r == z3.unsat:
+                return False
+            if r == z3.sat:
+                return ex.decide(cond)
+            ex.oblige("deferred-cut:value-is-finite", z3.Not(cond))
+            ex.axiom(z3.Not(cond))
+            return False
         return symx.MathShim.isinf(x)
 
     @staticmethod
